@@ -469,6 +469,17 @@ def work_map(item):
                 if v[a]:
                     marg[a] += w
     res = {"src": src, "p": p, "pe": pe, "runs": {}}
+    # queried facts that some evidence literal is equivalent to in every world (the grounder may give both one node,
+    # e.g. r1 :- r0, f0 with r0 :- f0); used as a second reading when the syntactic alias does not explain a run
+    forced_sem = []
+    truths = [sem.truth(fv, ch, ()) for _, fv, ch in sem.worlds]
+    for a, val in p["evidence"]:
+        for qa in q:
+            if all((v[a] == v[qa]) for v in truths) and val:
+                forced_sem.append(qa)
+            elif all((v[a] != v[qa]) for v in truths) and not val:
+                forced_sem.append(qa)
+    res["forced_sem"] = forced_sem
     if pe > 0:
         res["marg"] = {a: marg[a] / pe for a in q}
         res["joint"] = {k: x / pe for k, x in joint.items()}
@@ -478,11 +489,13 @@ def work_map(item):
 
 
 # ------------------------------------------------------------------ shrinking
-def shrink_prog(p, bad):
-    """Greedy structural shrinking keeping `bad(program)` true."""
+def shrink_prog(p, bad, budget_s=15.0):
+    """Greedy structural shrinking keeping `bad(program)` true, for at most budget_s seconds."""
     import copy
+    import time
+    t_end = time.time() + budget_s
     changed = True
-    while changed:
+    while changed and time.time() < t_end:
         changed = False
         cands = []
         for i in range(len(p["utils"])):
@@ -531,6 +544,8 @@ def shrink_prog(p, bad):
             del q["evidence"][i]
             cands.append(q)
         for q in cands:
+            if time.time() > t_end:
+                break
             try:
                 if bad(q):
                     p = q
@@ -569,7 +584,8 @@ def judge_dt(res, mode):
     reported = Fraction(r[2])
     k = len(info["names"])
     idx = int("".join(map(str, info["vals"])), 2) if k else 0
-    as_coded = k > 0 and abs(reported - info["table"][idx]) <= TOL   # the run behaves as the model says
+    # the run behaves as the model says (with no relevant decision the only table entry is the program's score)
+    as_coded = len(info["table"]) > idx and abs(reported - info["table"][idx]) <= TOL
     problems = []
     if abs(reported - info["eu_returned"]) > TOL:
         problems.append("reported score %r but the expected utility of the returned strategy is %s" % (r[2], info["eu_returned"]))
@@ -629,7 +645,7 @@ def run_dt_programs(ctx, progs):
                 seen_viol[key] = seen_viol.get(key, 0) + 1
                 known = any(kf.get("property") == "C21" and kf.get("class") == klass and kf.get("status") == "known"
                             for kf in ctx.known)
-                if (seen_viol[key] <= 1 or klass is None) and not known:
+                if (seen_viol[key] <= 1 or klass is None) and not known and seen_viol[key] <= 3:
                     small = shrink_prog(p, dt_bad_pred(mode, klass))
                     sres = work_dt(small)
                     _, swhat, _ = judge_dt(sres, mode)
@@ -688,10 +704,11 @@ def run_dt_programs(ctx, progs):
 
 # ------------------------------------------------------------------ MAP
 MAP_HEADER = HEADER + """
-Definition map_agrees (m : list Q) (s : strategy) (ev : nat) (eps : Q) : bool :=
-  match search_exhaustive (map_objective m) (fun _ => true) (length m) with
+Definition map_agrees (m : list Q) (forced : list nat) (s : strategy) (ev : nat) (eps : Q) : bool :=
+  match search_exhaustive (map_objective m) (forced_admissible forced) (length m) with
   | (Some (b, sc), e) =>
-      (strat_eqb b s || (Qle_bool (Qabs (sc - map_objective m s)) eps && negb (Qle_bool eps 0))) && Nat.eqb e ev
+      (strat_eqb b s || (Qle_bool (Qabs (sc - map_objective m s)) eps && forced_admissible forced s && negb (Qle_bool eps 0)))
+      && Nat.eqb e ev
   | _ => false
   end.
 """
@@ -778,10 +795,26 @@ def run_map_programs(ctx, progs):
                     elif klass is None:
                         ctx.violation("map not joint-optimal (unclassified) on\n" + res["src"],
                                       {"task": "map", "src": res["src"], "observed": repr(r)}, klass=None)
-                t = "map_agrees %s %s %s" % (vf.coq_list([coq_Q(x) for x in m]),
-                                             vf.coq_list([vf.coq_bool(v) for v in vals]), vf.coq_nat(r[3]))
+                # evidence whose node IS a queried fact (r0 :- f0. evidence(r0).) and asks it to be true: TrueConstraint on that decision
+                forced = set()
+                for a, val in p["evidence"]:
+                    al = resolve_alias(p, q, a)
+                    if al is not None and al[1] != val:
+                        forced.add(names.index(al[0]))
+                if any(not vals[i] for i in forced):
+                    ctx.violation("map(exhaustive) returns %r against positive evidence on a queried fact on\n%s"
+                                  % (dict(zip(names, vals)), res["src"]),
+                                  {"task": "map", "mode": mode, "src": res["src"], "program": p, "observed": repr(r)}, klass=None)
+                if forced:
+                    ctx.count("map_evidence_forces_queried_fact")
+                t = "map_agrees %s %s %s %s" % (vf.coq_list([coq_Q(x) for x in m]),
+                                                vf.coq_list([vf.coq_nat(i) for i in sorted(forced)]),
+                                                vf.coq_list([vf.coq_bool(v) for v in vals]), vf.coq_nat(r[3]))
                 cases.append(t + " 0%Q")
-                metas.append((res, t))
+                fs = sorted({names.index(x) for x in res.get("forced_sem", []) if x in names})
+                t2 = "map_agrees %s %s %s %s" % (vf.coq_list([coq_Q(x) for x in m]), vf.coq_list([vf.coq_nat(i) for i in fs]),
+                                                 vf.coq_list([vf.coq_bool(v) for v in vals]), vf.coq_nat(r[3]))
+                metas.append((res, t, t2))
     try:
         bad = ctx.coq_failing(MAP_HEADER, cases, name="map")
         still = set(bad)
@@ -791,6 +824,13 @@ def run_map_programs(ctx, progs):
                 if j not in bad2:
                     still.discard(i)
                     ctx.count("map_tie_other_argmax")
+        rest = sorted(still)
+        if rest:
+            bad3 = ctx.coq_failing(MAP_HEADER, [metas[i][2] + " (1 # 1000000000)%Q" for i in rest], name="map_sem")
+            for j, i in enumerate(rest):
+                if j not in bad3:
+                    still.discard(i)
+                    ctx.count("map_constraint_on_semantically_aliased_fact")
     except RuntimeError as e:
         ctx.broken.append("correspondence:MAP model does not evaluate")
         ctx.notes.append(str(e))
@@ -869,8 +909,8 @@ def run(ctx):
             run_map_programs(ctx, [rp["program"]])
         return
 
-    progs = list(WITNESS_DT) + [gen_dt(ctx.rng) for _ in range(ctx.n(50, 700))]
+    progs = list(WITNESS_DT) + [gen_dt(ctx.rng) for _ in range(ctx.n(44, 700))]
     run_dt_programs(ctx, progs)
     ctx.log("dt done")
-    mprogs = list(WITNESS_MAP) + [gen_map(ctx.rng) for _ in range(ctx.n(24, 250))]
+    mprogs = list(WITNESS_MAP) + [gen_map(ctx.rng) for _ in range(ctx.n(16, 250))]
     run_map_programs(ctx, mprogs)
